@@ -345,12 +345,12 @@ class CurvePairs(Unit):
     name = "curves-pairs"
     rule = ("curves_to_quadratic on every ordered pair of the 81-curve sub-lattice (p0=(0,0), p3=(200,0), handles free on the 3x3 lattice) x per-curve tolerance pairs (quick: 4 equal + 6 seed-chosen mixed of 12; thorough: all 16) x all_quadratic {T,F} "
             "(thorough: also the sub-lattices with p3=(200,200) and p0=p3=(100,100), and every ordered triple of a 27-curve subset x 12 tolerance triples); plus x100 images with tolerance 0.001 "
-            "(no approximation within 100 segments) and x0.01 images x 4 tolerance pairs: all results of one call have the same number of points, each keeps its end points and stays within its own tolerance; "
+            "(no approximation within 100 segments) and x0.01 images x 4 tolerance pairs; every list [A, B, A] over the sub-lattice x 3 tolerance triples: all results of one call have the same number of points, each keeps its end points and stays within its own tolerance; "
             "ValueError on mismatched max_errors, [] for []; distinct = each (curves,tolerances,flag)")
     chunk = 2
     required_witnesses = ("pair needs more segments than one curve alone", "result: cubic kept (all_quadratic=False)", "result: single quadratic",
                           "result: spline of >= 10 segments", "ApproxNotFoundError raised", "raise justified: MAX_N-segment candidate misses the tolerance",
-                          "error above 0.9 of the tolerance", "api: mismatched max_errors rejected")
+                          "error above 0.9 of the tolerance", "api: mismatched max_errors rejected", "list with a repeated curve")
 
     def cases(self, tier, seed):
         yield ["api"]
@@ -362,6 +362,10 @@ class CurvePairs(Unit):
                     yield ["pair", kind, a, blk, tps]
         for a in range(81):
             yield ["raise", a]
+        # lists with a repeated curve: [A, B, A] for every ordered pair (a duplicate that is not
+        # adjacent to its twin, with a curve in between that may need more segments)
+        for a in range(81):
+            yield ["aba", a]
         for a in range(81):
             yield ["small", a]
         if tier == "thorough":
@@ -410,6 +414,15 @@ class CurvePairs(Unit):
                     for aq in (True, False):
                         n += 1
                         run_multi(rec, [S[a], S[b]], tolp, aq, ["x0.01", a, b, tolp, aq])
+        elif kind == "aba":
+            a = case[1]
+            S = S81["row"]
+            for b in range(81):
+                for tt in ((1, 1, 1), (1, 0.001, 1), (10, 1, 0.5)):
+                    for aq in (True, False):
+                        n += 1
+                        run_multi(rec, [S[a], S[b], S[a]], tt, aq, ["aba", a, b, tt, aq])
+            rec.witness("list with a repeated curve")
         elif kind == "raise":
             a = case[1]
             S = [[p * 100 for p in c] for c in S81["row"]]
